@@ -27,12 +27,12 @@ H = hexs
 def proj_c03(op, out):
     w = props.first_word(op)
     if w in ('read_string', 'read_stream', 'read_file', 'read_chunked', 'deepnest', 'err', 'dump', 'wf', 'battery', 'leakcheck3',
-             'lookup_all', 'read_stream_fail', 'read_file_ioerr', 'read_string_ioerr', 'read_stream_eagain', 'strbuf_seq', 'strvec_seq'):
+             'lookup_all', 'read_stream_fail', 'read_stream_fail1', 'read_file_ioerr', 'read_string_ioerr', 'read_stream_eagain', 'strbuf_seq', 'strvec_seq'):
         return out
     return None          # cov, mkfile, mkdir, init, set_*: not part of the comparison
 
-READS = ('read_string', 'read_stream', 'read_file', 'read_chunked', 'deepnest', 'read_stream_fail', 'read_file_ioerr', 'read_string_ioerr', 'read_stream_eagain')
-IOFAIL = ('read_stream_fail', 'read_file_ioerr', 'read_string_ioerr', 'read_stream_eagain')
+READS = ('read_string', 'read_stream', 'read_file', 'read_chunked', 'deepnest', 'read_stream_fail', 'read_stream_fail1', 'read_file_ioerr', 'read_string_ioerr', 'read_stream_eagain')
+IOFAIL = ('read_stream_fail', 'read_stream_fail1', 'read_file_ioerr', 'read_string_ioerr', 'read_stream_eagain')
 IO_ERR = '1 %s - 0' % b'file I/O error'.hex()
 # prefixes that end in the middle of a construct after a complete token: the parser must ask for more input, so the
 # failing read is reached and the I/O error is required although the prefix alone is rejected
@@ -251,14 +251,16 @@ def sess_iofail(texts):
                 # the delivered prefix alone first (its record is one of the two admissible ones, see the oracle)
                 impl.do('read_stream ' + H(t[:c])); impl.do('err')
                 impl.do('init')
-                out = impl.do('read_stream_fail %d %s' % ((0, 1, 7)[(n + c) % 3], H(t[:c])))
+                # the failure is persistent or transient (one failing read, then end of file), alternately
+                out = impl.do('read_stream_fail%s %d %s' % (('', '1')[(n // 3 + c) % 2], (0, 1, 7)[(n + c) % 3], H(t[:c])))
                 impl.do('errio'); impl.do('dump'); impl.do('battery')
                 k = 'iofail:stream:%s' % (out or '?').split(' ')[0][:12]; stats[k] = stats.get(k, 0) + 1
         for t in STRICT_PREFIXES:
             for ch in (0, 1, 7):
+              for once in ('', '1'):
                 impl.do('init'); impl.do('read_stream ' + H(t)); impl.do('err'); impl.do('init')
-                out = impl.do('read_stream_fail %d %s' % (ch, H(t))); impl.do('errio'); impl.do('dump'); impl.do('battery')
-                k = 'iofail:mid-construct:%s' % (out or '?').split(' ')[0][:12]; stats[k] = stats.get(k, 0) + 1
+                out = impl.do('read_stream_fail%s %d %s' % (once, ch, H(t))); impl.do('errio'); impl.do('dump'); impl.do('battery')
+                k = 'iofail:mid-construct%s:%s' % (once, (out or '?').split(' ')[0][:12]); stats[k] = stats.get(k, 0) + 1
         # a failure that looks transient (EAGAIN from a non-blocking descriptor) must fail too, not be retried for ever
         for t in (b'', b'a = 1;\n', b'a = (1, 2'):
             impl.do('init'); out = impl.do('read_stream_eagain ' + H(t)); impl.do('errio'); impl.do('dump'); impl.do('battery')
